@@ -223,7 +223,36 @@ def scan_flag_writes():
     return sorted(assigns, key=key), sorted(direct, key=key), sorted(clears, key=key)
 
 
-def render(rows, appends, steps, clone, wdef=None, writes=None):
+def scan_container_guards():
+    """In every emitter's wrap_namespace: each loop `for V in node.namespaces/classes` and the wrap flag that decides
+    whether V is processed.  Row = (emitter, collection 0 namespaces 1 classes, guard subject 1 = the loop variable
+    2 = the enclosing node 9 = other/none, language of the flag 0 c 1 fortran 2 python 3 lua 9 none)."""
+    lang = {"c": 0, "fortran": 1, "python": 2, "lua": 3}
+    rows = []
+    for fn, em in sorted(EMITTERS.items(), key=lambda kv: kv[1]):
+        tree = ast.parse(open(os.path.join(common.REPO, "shroud", fn)).read())
+        for f in ast.walk(tree):
+            if not (isinstance(f, ast.FunctionDef) and f.name == "wrap_namespace"):
+                continue
+            for n in ast.walk(f):
+                if not (isinstance(n, ast.For) and isinstance(n.target, ast.Name) and isinstance(n.iter, ast.Attribute)
+                        and n.iter.attr in ("namespaces", "classes")):
+                    continue
+                subj, lg = 9, 9
+                for st in n.body[:3]:
+                    if isinstance(st, ast.If):
+                        for a in ast.walk(st.test):
+                            if isinstance(a, ast.Attribute) and a.attr in lang and isinstance(a.value, ast.Attribute) \
+                                    and a.value.attr == "wrap" and isinstance(a.value.value, ast.Name):
+                                who = a.value.value.id
+                                subj = 1 if who == n.target.id else (2 if who == "node" else 9)
+                                lg = lang[a.attr]
+                        break
+                rows.append((em, 0 if n.iter.attr == "namespaces" else 1, subj, lg, n.lineno))
+    return rows
+
+
+def render(rows, appends, steps, clone, wdef=None, writes=None, guards=None):
     L = ["/- GENERATED by tools/extract_flags.py from the /repo working tree.  Do not edit. -/",
          "namespace Shroud.Gen.Flags", "",
          "/-- (emitter, directory, registered list, append directory, same file name) per write_output_file site;",
@@ -256,6 +285,9 @@ def render(rows, appends, steps, clone, wdef=None, writes=None):
     L.append(",\n".join('  ("%s", %d, %d)' % (f, lcode[l], c) for f, _, l, c in writes[1]))
     L += ["]", "", "/-- functions of generate.py that call `<x>.wrap.clear()` -/",
           "def clearSites : List String := [" + ", ".join('"%s"' % f for f, _ in writes[2]) + "]", "",
+          "/-- loops over namespaces / classes in each emitter's wrap_namespace: (emitter 0 wrapc 1 wrapf 2 wrapp 3 wrapl,",
+          "    collection 0 namespaces 1 classes, guard subject 1 loop variable 2 enclosing node 9 none, flag language) -/",
+          "def containerGuards : List (Nat × Nat × Nat × Nat) := [" + ", ".join("(%d, %d, %d, %d)" % g[:4] for g in (guards or [])) + "]", "",
           "end Shroud.Gen.Flags"]
     return "\n".join(L) + "\n"
 
@@ -266,10 +298,11 @@ def regenerate():
     clone = scan_default_clone()
     wdef = scan_wrap_defaults()
     writes = scan_flag_writes()
-    changed = write_if_changed(GEN, render(rows, appends, steps, clone, wdef, writes))
+    guards = scan_container_guards()
+    changed = write_if_changed(GEN, render(rows, appends, steps, clone, wdef, writes, guards))
     return {"write_sites": len(rows), "appends": appends, "driver_steps": steps, "default_clone": clone,
             "wrap_defaults": wdef, "flag_assign_sites": len(writes[0]), "flag_direct_writes": len(writes[1]),
-            "flag_clear_sites": len(writes[2]), "unknown": unknown, "changed": changed}
+            "flag_clear_sites": len(writes[2]), "container_guards": guards, "unknown": unknown, "changed": changed}
 
 
 if __name__ == "__main__":
